@@ -57,7 +57,9 @@ func (e Expectation) AssertAlgorithm(alg string) error {
 }
 
 func (e Expectation) AssertIssuer(issuer string) error {
-	if !slices.Contains(e.TrustedIssuers, issuer) {
+	// a token that names no issuer is never trusted, even if the list contains the empty string
+	// (e.g. the issuer of a metadata document that states none)
+	if len(issuer) == 0 || !slices.Contains(e.TrustedIssuers, issuer) {
 		return errorchain.NewWithMessagef(ErrAssertion, "issuer %s is not trusted", issuer)
 	}
 
